@@ -100,4 +100,92 @@ RoundTrip(p) == \A fmt \in OutFormats :
                    IN  r # NotExpressible => (r.form \in PeriodForms(p[2]) /\ ReadBack(r) = <<6, p>>)
 AllFormsAgree(p) == \A f \in PeriodForms(p[2]) : PeriodDenotes([form |-> f, y |-> p[1], i |-> p[2], n |-> p[3]]) = <<6, p>>
 GregorianExpressible(p) == (Render(p, "sdmx_gregorian") # NotExpressible) <=> p[2] \in {"A", "M", "D"}
+
+(***************************************************************************)
+(* Cells of the other types: [form, text, den] with den = the tagged value *)
+(* the text denotes under the documented input formats, Invalid when the   *)
+(* documentation admits no such representation, Undet where it does not    *)
+(* say (such cells are only compared ACROSS input forms, C18 / C20).       *)
+(***************************************************************************)
+Undet == <<14, 0>>
+NullV == <<0, 0>>
+Cell(f, t, d) == [form |-> f, text |-> t, den |-> d]
+DT(y, m, d, sec) == <<5, <<Ord(y, m, d), sec>>>>
+P2(n) == Pad(n, 2)
+
+IntegerCells == <<
+   Cell("int", "42", <<1, 42>>), Cell("zero", "0", <<1, 0>>), Cell("negative", "-7", <<1, -7>>),
+   Cell("fraction", "3.5", Invalid), Cell("negative-fraction", "-0.5", Invalid),
+   Cell("hexadecimal", "0x1F", Invalid), Cell("alpha", "abc", Invalid), Cell("mixed", "12abc", Invalid),
+   Cell("integral-float", "3.0", Undet), Cell("plus-sign", "+5", Undet), Cell("padded", " 7 ", Undet),
+   Cell("exponent", "1e3", Undet), Cell("null", "", NullV) >>
+NumberCells == <<
+   Cell("int", "42", <<2, <<42, 1>>>>), Cell("decimal", "3.14", <<2, <<157, 50>>>>), Cell("negative", "-0.25", <<2, <<-1, 4>>>>),
+   Cell("exponent", "1e5", <<2, <<100000, 1>>>>), Cell("zero", "0", <<2, <<0, 1>>>>),
+   Cell("alpha", "abc", Invalid), Cell("comma", "1,5", Invalid), Cell("hexadecimal", "0x1F", Invalid), Cell("two-dots", "1.2.3", Invalid),
+   Cell("padded", " 2.5 ", Undet), Cell("nan", "NaN", Undet), Cell("infinity", "inf", Undet), Cell("null", "", NullV) >>
+BooleanCells == <<
+   Cell("true", "true", <<3, TRUE>>), Cell("false", "false", <<3, FALSE>>), Cell("TRUE", "TRUE", <<3, TRUE>>),
+   Cell("False", "False", <<3, FALSE>>), Cell("one", "1", <<3, TRUE>>), Cell("zero", "0", <<3, FALSE>>),
+   Cell("yes", "yes", Invalid), Cell("two", "2", Invalid), Cell("alpha", "abc", Invalid), Cell("t", "t", Undet),
+   Cell("padded", " true ", Undet), Cell("null", "", NullV) >>
+DateCells == <<
+   Cell("date", "2020-01-15", DT(2020, 1, 15, 0)), Cell("leap-day", "2020-02-29", DT(2020, 2, 29, 0)),
+   Cell("datetime-space", "2020-01-15 10:30:00", DT(2020, 1, 15, 37800)), Cell("datetime-T", "2020-01-15T10:30:00", DT(2020, 1, 15, 37800)),
+   Cell("timezone-Z", "2020-01-15T10:30:00Z", DT(2020, 1, 15, 37800)), Cell("timezone-offset", "2020-01-15T10:30:00+02:00", DT(2020, 1, 15, 37800)),
+   Cell("first-year", "1800-01-01", DT(1800, 1, 1, 0)), Cell("last-year", "9999-12-31", DT(9999, 12, 31, 0)),
+   Cell("month-13", "2020-13-01", Invalid), Cell("day-30-feb", "2020-02-30", Invalid), Cell("day-29-feb-common", "2021-02-29", Invalid),
+   Cell("year-1799", "1799-12-31", Invalid), Cell("year-10000", "10000-01-01", Invalid),
+   Cell("partial-time", "2020-01-15 10:30", Invalid), Cell("hour-only", "2020-01-15T10", Invalid), Cell("hour-25", "2020-01-15T25:00:00", Invalid),
+   Cell("bad-separator", "2020-01-15X10:30:00", Invalid), Cell("slashes", "2020/01/15", Invalid), Cell("alpha", "abc", Invalid),
+   Cell("period-text", "2020Q1", Invalid), Cell("one-digit-month", "2020-1-5", Undet), Cell("null", "", NullV) >>
+PD(y, i, n) == <<6, <<y, i, n>>>>
+PeriodCells == <<
+   Cell("YYYY", "2020", PD(2020, "A", 1)), Cell("YYYYA", "2020A", PD(2020, "A", 1)), Cell("YYYY-A1", "2020-A1", PD(2020, "A", 1)),
+   Cell("YYYYSx", "2020S2", PD(2020, "S", 2)), Cell("YYYY-Qx", "2020-Q3", PD(2020, "Q", 3)),
+   Cell("YYYYMm", "2020M2", PD(2020, "M", 2)), Cell("YYYY-MM", "2020-02", PD(2020, "M", 2)), Cell("YYYY-Mxx", "2020-M12", PD(2020, "M", 12)),
+   Cell("YYYYWww", "2020W53", PD(2020, "W", 53)), Cell("YYYY-Wxx", "2021-W52", PD(2021, "W", 52)),
+   Cell("YYYYDddd", "2020D366", PD(2020, "D", 366)), Cell("YYYY-MM-DD", "2020-03-01", PD(2020, "D", 61)),
+   Cell("semester-3", "2020S3", Invalid), Cell("quarter-5", "2020Q5", Invalid), Cell("month-13", "2020M13", Invalid), Cell("month-0", "2020M0", Invalid),
+   Cell("week-54", "2020W54", Invalid), Cell("week-53-of-52", "2021W53", Invalid), Cell("week-0", "2020W0", Invalid),
+   Cell("day-366-common", "2021D366", Invalid), Cell("day-367", "2020D367", Invalid), Cell("day-0", "2020D0", Invalid),
+   Cell("date-month-13", "2020-13-01", Invalid), Cell("alpha", "abc", Invalid), Cell("interval-text", "2020-01-01/2020-12-31", Invalid),
+   Cell("lowercase", "2020q1", Undet), Cell("null", "", NullV) >>
+IV(a, b) == <<7, <<a, b>>>>
+TimeCells == <<
+   Cell("interval", "2020-01-01/2020-12-31", IV(Ord(2020, 1, 1), Ord(2020, 12, 31))),
+   Cell("same-day", "2020-03-05/2020-03-05", IV(Ord(2020, 3, 5), Ord(2020, 3, 5))),
+   Cell("year", "2020", IV(Ord(2020, 1, 1), Ord(2020, 12, 31))), Cell("year-month", "2020-02", IV(Ord(2020, 2, 1), Ord(2020, 2, 29))),
+   Cell("reversed", "2020-12-31/2020-01-01", Invalid), Cell("month-13", "2020-13-01/2020-13-31", Invalid),
+   Cell("alpha", "abc", Invalid), Cell("single-date", "2020-01-15", Undet), Cell("period-text", "2020Q1", Undet), Cell("null", "", NullV) >>
+DurationCells == <<
+   Cell("A", "A", <<8, "A">>), Cell("S", "S", <<8, "S">>), Cell("Q", "Q", <<8, "Q">>), Cell("M", "M", <<8, "M">>), Cell("W", "W", <<8, "W">>),
+   Cell("D", "D", <<8, "D">>), Cell("unknown-letter", "X", Invalid), Cell("iso-duration", "P1Y", Invalid), Cell("word", "month", Invalid),
+   Cell("digit", "1", Invalid), Cell("lowercase", "m", Undet), Cell("null", "", NullV) >>
+StringCells == <<
+   Cell("text", "abc", <<4, "abc">>), Cell("spaces", "a b", <<4, "a b">>), Cell("digits", "42", <<4, "42">>), Cell("comma", "x,y", <<4, "x,y">>), Cell("semicolon", "a;b", <<4, "a;b">>), Cell("inner-quote", "say \"hi\"", Undet),
+   Cell("padded", " x ", Undet), Cell("empty", "", Undet) >>
+CellsOf(t) == CASE t = "Integer" -> IntegerCells [] t = "Number" -> NumberCells [] t = "Boolean" -> BooleanCells
+                [] t = "Date" -> DateCells [] t = "Time_Period" -> PeriodCells [] t = "Time" -> TimeCells
+                [] t = "Duration" -> DurationCells [] t = "String" -> StringCells
+
+(***************************************************************************)
+(* A table: cols = sequence of [n, r, t, u] (u = nullable), rows = sequence *)
+(* of sequences of cells (one per column, "absent" column = not in `has`).  *)
+(* Verdict: "reject" when the table violates its declared structure,       *)
+(* "accept" when it does not, "undetermined" when it holds an Undet cell   *)
+(* and no violation.                                                       *)
+(***************************************************************************)
+IdIdx(cols) == { i \in DOMAIN cols : cols[i].r = "I" }
+TableVerdict(cols, has, rows) ==
+    LET ids == IdIdx(cols)
+        missing == { i \in DOMAIN cols : i \notin has }
+        key(r) == [i \in ids |-> r[i].den]
+    IN  IF \E i \in missing : cols[i].r = "I" \/ ~cols[i].u THEN "reject"                              \* missing identifier / non-nullable column
+        ELSE IF \E k \in DOMAIN rows : \E i \in has : rows[k][i].den = Invalid THEN "reject"             \* not a representation of the type
+        ELSE IF \E k \in DOMAIN rows : \E i \in has : rows[k][i].den = NullV /\ (cols[i].r = "I" \/ ~cols[i].u) THEN "reject"   \* null identifier / non-nullable
+        ELSE IF ids = {} /\ Len(rows) > 1 THEN "reject"                                                  \* more than one datapoint without identifiers
+        ELSE IF \E k \in DOMAIN rows : \E i \in has : rows[k][i].den = Undet THEN "undetermined"
+        ELSE IF \E a, b \in DOMAIN rows : a # b /\ key(rows[a]) = key(rows[b]) THEN "reject"              \* duplicate identifier keys
+        ELSE "accept"
 =============================================================================
